@@ -145,13 +145,13 @@ static void p1_run(uint64_t idx, vh_rng_t * rng) {
 }
 
 /* ---- phase 2: SCPI_ParamCopyText ------------------------------------------------------------------ */
-static size_t g_L; static cell_t g_cell; static size_t g_copy_len; static int g_ok; static int g_called;
+static size_t g_L; static cell_t g_cell; static size_t g_copy_len; static int g_ok; static int g_called; static int g_null_copy_len;
 static scpi_result_t h_copy(scpi_t * context) {
     size_t * cl = (size_t *) malloc(sizeof(size_t));
     *cl = 0x5a5a5a5a;
     g_called++;
     g_cell = cell_new(g_L);
-    g_ok = SCPI_ParamCopyText(context, g_cell.buf, g_L, cl, TRUE);
+    g_ok = SCPI_ParamCopyText(context, g_cell.buf, g_L, g_null_copy_len ? NULL : cl, TRUE);
     g_copy_len = *cl; free(cl);
     return SCPI_RES_OK;
 }
@@ -175,6 +175,22 @@ static void p2_run(uint64_t idx, vh_rng_t * rng) {
         vh_input(v, msg, k);
         vh_eval(1);
         if (!g_called) { vh_violation("C15:copytext-harness", "handler not called for %s", vh_esc(msg, k)); vh_ctx_free(v); break; }
+        /* the same call without the optional place for the length (a caller that only wants the terminated text): whatever the
+         * function answers, the stated buffer length bounds what it writes */
+        {
+            cell_t first = g_cell; int ok1 = g_ok; size_t cl1 = g_copy_len; vh_ctx_t * v2 = vh_ctx_new(copy_cmds, 256, 4, 64);
+            g_null_copy_len = 1; g_called = 0;
+            vh_input(v2, msg, k); vh_eval(1);
+            g_null_copy_len = 0;
+            if (g_called) {
+                if (cell_guards(&g_cell)) vh_violation("C15:overrun:SCPI_ParamCopyText:copy_len-null", "buffer_len=%zu copy_len=NULL result=%d text=%s", L, g_ok, vh_esc(msg, k));
+                vh_count(g_ok ? "copytext.null_copy_len.accepted" : "copytext.null_copy_len.refused", 1); vh_count("copytext.null_copy_len.calls", 1);
+                cell_free(&g_cell);
+            }
+            vh_ctx_free(v2);
+            g_cell = first; g_ok = ok1; g_copy_len = cl1;
+        }
+        if (!g_ok && cell_guards(&g_cell)) vh_violation("C15:overrun:SCPI_ParamCopyText:failed-call", "buffer_len=%zu text=%s", L, vh_esc(msg, k));
         if (g_ok) {
             int g = cell_guards(&g_cell);
             if (g) vh_violation("C15:overrun:SCPI_ParamCopyText", "buffer_len=%zu text=%s", L, vh_esc(msg, k));
@@ -223,6 +239,6 @@ int main(int argc, char ** argv) {
         { "IntToStr", p3_count, p3_run },
     };
     vh_require("post.fits"); vh_require("post.exact"); vh_require("post.truncated");
-    vh_require("number.with_unit"); vh_require("number.user_units_table"); vh_require("number.special"); vh_require("copytext.truncated"); vh_require("copytext.fits");
+    vh_require("number.with_unit"); vh_require("number.user_units_table"); vh_require("number.special"); vh_require("copytext.truncated"); vh_require("copytext.fits"); vh_require("copytext.null_copy_len.calls");
     return vh_main(argc, argv, "C15", phases, 4);
 }
